@@ -151,7 +151,6 @@ func SimC04(c *CheckCtx, i int, r *Rng) error {
 	if err != nil {
 		return err
 	}
-	_ = out
 	local, tp := false, false
 	for _, p := range m.Pkgs {
 		a, b := p.HasShadow()
@@ -163,7 +162,11 @@ func SimC04(c *CheckCtx, i int, r *Rng) error {
 	if tp {
 		c.Env.Stats.Add("probe/typeparam-shadows", 1)
 	}
-	c.Env.Stats.Fingerprint(fmt.Sprintf("c04/%d pkgs/%v/%v/all=%v/eps=%d/%s/%s", len(m.Pkgs), local, tp, args.All, len(eps), m.GoVer, fmtNames(names)))
+	if out.AnyNonTrivial() {
+		c.Env.Stats.Fingerprint(fmt.Sprintf("c04/%d pkgs/%v/%v/all=%v/eps=%d/%s/%s", len(m.Pkgs), local, tp, args.All, len(eps), m.GoVer, fmtNames(names)))
+	} else {
+		c.Env.Stats.Add("trivial-simulations", 1)
+	}
 
 	// D4 on the same world, as a history of its own
 	fp := &Scenario{Kind: "history", Module: m, Base: base, Variants: []Variant{{Name: "fixedpoint", Ops: []Op{
